@@ -8,6 +8,18 @@ M0300 = datetime.timezone(datetime.timedelta(hours=-3))
 
 
 def arg_atoms():
+    import collections
+
+    import pandas as pd
+
+    return _plain_atoms() + [
+        # legal values whose normal form differs from themselves: a datetime subclass, a dict subclass
+        ("pd-timestamp", pd.Timestamp("2020-02-29 13:05:07")),
+        ("ordered-dict", collections.OrderedDict([("y", "a"), ("x", 1)])),
+    ]
+
+
+def _plain_atoms():
     return [
         ("None", None), ("True", True), ("False", False), ("0", 0), ("1", 1), ("-1", -1), ("2**63", 2 ** 63),
         ("1.0", 1.0), ("0.5", 0.5), ("-0.0", -0.0), ("0.0", 0.0), ("nan", float("nan")), ("inf", float("inf")),
